@@ -726,7 +726,7 @@ theorem vtyOf_obj_of {t : OTy} (hV : vtyOf t = some (.obj t)) (v : Val) (n : Nat
     Conf (n + 1) v t ↔ ∃ nm p fs, v = .struct nm p fs ∧
       (∀ name τ, fieldTypeT .asIs t name = some τ →
         ∃ w, (∀ ns, fetchV v (.str name) ns = .ok w) ∧ Conf n w (some τ)) ∧
-      (∀ name fn im, methodTarget .asIs t name = some (fn, im) → ∃ id, lookupKv name fs = some (.fn id)) := by
+      (∀ name fn im, methodTarget .asIs t name = some (fn, im) → lookupKv name fs = some (.fn (methKey t name))) := by
   simp only [Conf, hV]
 
 /-- `x.name` / `x?.name` for `x` of struct (or pointer-to-struct) type, name resolution as in the current
@@ -1092,17 +1092,34 @@ theorem spec2_matches (cfg : CheckCfg) (c : SCfg) (hre : RegexTotal c) (cs : Lis
 
 /-! ### method calls -/
 
-/-- **the hypothesis on methods**: a method (or function-typed member) the checker resolves on a receiver
-type of the fragment — held by the receiver value as the entry `id` —, called with arguments of its
-parameter types, returns a value of its declared result type or fails with a tolerated class -/
+/-- the types a receiver can have: those of the environment's members, and what is reachable from them
+through fields, pointers, slices and maps (three levels) -/
+def memberTys (t : Ty) : List Ty :=
+  (t.deref.fields.map (·.ty)) ++
+    (match t.core with
+      | .slice e | .ptr e | .array _ e | .map _ e => [e]
+      | _ => [])
+
+def expandTys : Nat → List Ty → List Ty
+  | 0, ts => ts
+  | n + 1, ts => ts ++ expandTys n (ts.flatMap memberTys)
+
+def recvTys (cfg : CheckCfg) : List OTy :=
+  (expandTys 3 ((cfg.types.getD []).filterMap (·.2.ty))).map some
+
+/-- **the hypothesis on methods**: for every receiver type of the environment (`recvTys cfg`) and every
+method or function-typed member the checker resolves on it, the function labelled `methKey t name`, called
+with arguments of its parameter types, returns a value of its declared result type or fails with a
+tolerated class.  (It speaks of the finitely many members of the environment's own types, each under its own
+label; so it constrains the world on those labels only.) -/
 def MethodsConform (E : ErrClass → Prop) (cfg : CheckCfg) (c : SCfg) : Prop :=
-  ∀ (t : OTy) (nm : String) (p : Bool) (fs : List (String × Val)) (name id : String) (fn : Ty) (isMethod : Bool)
+  ∀ (t : OTy), t ∈ recvTys cfg → ∀ (name : String) (fn : Ty) (isMethod : Bool)
     (ins : List Ty) (variadic : Bool) (numIn offset : Nat) (out : Ty) (vs : List Val) (V : VTy),
-    vtyOf t = some (.obj t) → ValOfV (.struct nm p fs) (.obj t) →
-    methodTarget cfg.dn t name = some (fn, isMethod) → lookupKv name fs = some (.fn id) →
+    vtyOf t = some (.obj t) →
+    methodTarget cfg.dn t name = some (fn, isMethod) →
     funcPlan fn isMethod vs.length = .inr (ins, variadic, numIn, offset, out) →
     ArgsConform ins variadic numIn offset 0 vs → vtyOf (some out) = some V →
-    ROK E (fun v => ValOfV v V) (c.world.call id vs)
+    ROK E (fun v => ValOfV v V) (c.world.call (methKey t name) vs)
 
 /-- `x.m(a₁, …, aₙ)` / `x?.m(…)` for `x` of struct (or pointer-to-struct) type -/
 theorem spec2_method (hd : E .divzero) (cfg : CheckCfg) (c : SCfg) (hdn : cfg.dn = NDefects.asIs)
@@ -1110,6 +1127,7 @@ theorem spec2_method (hd : E .divzero) (cfg : CheckCfg) (c : SCfg) (hdn : cfg.dn
     (m : Meta) (x : Node) (name : String) (args : List Node) (nilsafe : Bool)
     (ihx : Spec2 E cfg c cs x)
     (hx : ∀ t, synth cfg cs x = some t → vtyOf t = some (.obj t))
+    (hrecv : ∀ t, synth cfg cs x = some t → t ∈ recvTys cfg)
     (hplan : ∀ t fn isMethod, synth cfg cs x = some t → methodTarget cfg.dn t name = some (fn, isMethod) →
       ∃ ins variadic numIn offset out, funcPlan fn isMethod args.length = .inr (ins, variadic, numIn, offset, out) ∧
         ArgsOK E cfg c cs ins variadic numIn offset 0 args) :
@@ -1165,9 +1183,9 @@ theorem spec2_method (hd : E .divzero) (cfg : CheckCfg) (c : SCfg) (hdn : cfg.dn
         intro vs ⟨hlen, hconf⟩
         -- the receiver is a struct value: not nil
         obtain ⟨nm, p, fs, rfl, _, hmeths⟩ := (vtyOf_obj_of hVt obj 0).1 (hobj 1)
-        obtain ⟨id, hid⟩ := hmeths name fn isMethod (by rw [← hdn]; exact hmt)
+        have hid := hmeths name fn isMethod (by rw [← hdn]; exact hmt)
         have hcall : ROK E (fun v => ValOfV v V) (callMember c.world (.struct nm p fs) name vs) := by
-          have := hm t' nm p fs name id fn isMethod ins variadic numIn offset out vs V hVt hobj hmt hid
+          have := hm t' (hrecv t' hsx) name fn isMethod ins variadic numIn offset out vs V hVt hmt
             (by rw [hlen]; exact hfp) hconf hV
           simp only [callMember, hid]
           exact this
